@@ -106,7 +106,16 @@ class Model:
                             and any(isinstance(a_, ast.Constant) and isinstance(a_.value, (str, bytes)) and isinstance(a_.value, bytes) != is_bytes for a_ in e.args):
                         raise AnalysisError('%s: %s is a TypeError for %s lines' % (f.site, t, 'bytes' if is_bytes else 'str'))
                     return None
-                ps = paths.Enumerator(paths.Folder(paths.module_consts(f.module, f.cls or ''), atom)).run(loops[0].body, [paths.Path()])
+                # constants bound before the loop (marker tables ...) are part of the loop body's environment
+                p0 = paths.Path()
+                pre_ps = paths.Enumerator(paths.Folder(paths.module_consts(f.module, f.cls or ''))).run(fnode.body[:fnode.body.index(loops[0])], [paths.Path()])
+                if len(pre_ps) == 1 and pre_ps[0].outcome is None:
+                    rebound = paths._assigned(loops[0])
+                    for k_, v_ in pre_ps[0].env.items():
+                        if k_ != flag and k_ not in rebound and not k_.startswith('@') \
+                                and all(isinstance(x, (ast.Constant, ast.Tuple, ast.List, ast.Load)) for x in ast.walk(v_)):
+                            p0.env[k_] = v_
+                ps = paths.Enumerator(paths.Folder(paths.module_consts(f.module, f.cls or ''), atom)).run(loops[0].body, [p0])
                 dropped = anyl.complement()
                 yields_line = True
                 keeps_flag = True
